@@ -115,10 +115,49 @@ Proof. exact next_record_conts. Qed.
    (BoundSheet8 names, SST with its CONTINUE records) -> per-sheet loop (LABELSST through the table,
    LABEL, FORMULA + STRING + CONTINUE records under any legal fragmentation of the result): sheet
    names and text cells are what the writer stored. *)
+(* [cp] is the CodePage record of the globals ([MS-XLS] 2.4.52): ANY 16-bit value (Excel writes
+   1200 into BIFF8 files, JExcelApi 1252 — tests/sheet_name_parsing.xls of the repository —,
+   localised writers 932 / 65001 / ..., values no decoder table knows) or no record (None): BIFF8
+   strings are Unicode whatever it says (2.5.240, 2.5.293, 2.5.294).  Until the repair of audit-2
+   finding XLS-1 the code decoded every string of a workbook with cp <> 1200 through that code
+   page, and this theorem was stated for the fixed value 1200 only. *)
 Theorem C12_workbook_strings :
-  forall strs lay shs, legal_workbook strs lay shs = true ->
-    wb_strings (workbook_stream strs lay shs) = Ok (wb_spec strs shs).
+  forall cp strs lay shs, legal_workbook cp strs lay shs = true ->
+    wb_strings (workbook_stream cp strs lay shs) = Ok (wb_spec strs shs).
 Proof. exact wb_strings_ok. Qed.
+
+(* the record decides nothing: two workbooks that differ only in it read identically, and the
+   globals loop skips a CodePage record with any body of at least two bytes *)
+Theorem C12_codepage_irrelevant :
+  forall cp cp' strs lay shs,
+    legal_workbook cp strs lay shs = true -> legal_workbook cp' strs lay shs = true ->
+    wb_strings (workbook_stream cp strs lay shs) = wb_strings (workbook_stream cp' strs lay shs).
+Proof. exact wb_strings_codepage_irrelevant. Qed.
+Theorem C12_codepage_record_skipped :
+  forall d c rest sh st, 2 <= len d ->
+    wb_globals (Ok (66, d, c) :: rest) sh st = wb_globals rest sh st.
+Proof. exact wb_globals_codepage_any. Qed.
+
+(* a substream nested in a worksheet substream (the chart of an embedded chart object, whose series
+   cache is made of LABEL / NUMBER / ... records) contributes no text cell and its EOF does not
+   end the sheet (the sheet loop counts open substreams since the repair of audit-2 finding XLS-2) *)
+Theorem C12_nested_substream_skipped :
+  forall d0 c0 inner d1 c1 rest tbl fp cells,
+    Forall plain_inner inner ->
+    wb_sheet (Ok (2057, d0, c0) :: inner ++ Ok (10, d1, c1) :: rest) tbl fp cells 1 =
+    wb_sheet rest tbl fp cells 1.
+Proof. exact wb_sheet_nested_skipped. Qed.
+Example C12_nested_substream_nonvacuous :
+  Forall plain_inner [Ok (516, label_body 0 0 15 false [120], None); Ok (515, [], None)] /\
+  wb_sheet (records (frame 2057 (bof_body 16) ++ frame 516 (label_body 0 0 15 false [97])
+                     ++ frame 2057 (bof_body 32) ++ frame 516 (label_body 0 0 15 false [120])
+                     ++ frame 515 [] ++ frame 10 []
+                     ++ frame 516 (label_body 1 0 15 false [98]) ++ frame 10 []))
+           [] (0, 0) [] 0 = Ok [(0, 0, [97]); (1, 0, [98])].
+Proof.
+  split; [|vm_compute; reflexivity].
+  repeat constructor; eexists; eexists; eexists; (split; [reflexivity|split; discriminate]).
+Qed.
 
 (* the decoder state machine of encoding_rs run on the bytes of a unit sequence is UTF-16 decoding;
    fed segment by segment (one decoder per string, as read_dbcs does) and then finished it yields
@@ -209,8 +248,15 @@ Example C12_xl_nonvacuous :
   legal_short_string false [83; 233] = true /\
   parse_sheet_metadata (boundsheet_body 1234 1 0 true [83; 0; 20013]) = Ok (1234, [83; 20013]).
 Proof. exact example_xl_nonvacuous. Qed.
+Example C12_workbook_codepages_nonvacuous :
+  forallb (fun cp => legal_workbook cp ex_strs ex_lay ex_sheets) ex_codepages = true /\
+  Forall (fun cp => wb_strings (workbook_stream cp ex_strs ex_lay ex_sheets)
+                    = Ok (wb_spec ex_strs ex_sheets)) ex_codepages /\
+  firstn 10 (skipn 20 (workbook_stream (Some 1252) ex_strs ex_lay ex_sheets)) =
+    [66; 0; 2; 0; 228; 4; 133; 0; 14; 0].
+Proof. exact example_workbook_codepages. Qed.
 Example C12_workbook_nonvacuous :
-  legal_workbook ex_strs ex_lay ex_sheets = true /\
+  legal_workbook (Some 1252) ex_strs ex_lay ex_sheets = true /\
   wb_spec ex_strs ex_sheets =
   [([83; 20013], [(0, 0, [104; 233; 233; 128512; 122]); (2, 0, [65279; 20013; 97]);
                   (4, 1, [104; 105]); (6, 2, [128512]); (7, 1, [104; 128512; 233; 105])]);
@@ -259,8 +305,12 @@ Check C12_formula_string_any_split :
                (cont_opt (snd (frags (fstring_items us hb cuts ++ rest))))
     = Ok (utf16_decode us).
 Check C12_workbook_strings :
-  forall strs lay shs, legal_workbook strs lay shs = true ->
-    wb_strings (workbook_stream strs lay shs) = Ok (wb_spec strs shs).
+  forall cp strs lay shs, legal_workbook cp strs lay shs = true ->
+    wb_strings (workbook_stream cp strs lay shs) = Ok (wb_spec strs shs).
+Check C12_codepage_irrelevant :
+  forall cp cp' strs lay shs,
+    legal_workbook cp strs lay shs = true -> legal_workbook cp' strs lay shs = true ->
+    wb_strings (workbook_stream cp strs lay shs) = wb_strings (workbook_stream cp' strs lay shs).
 Check C12_parse_string_ok :
   forall hb us extra, legal_xl_string hb us = true ->
     parse_string (xl_string hb us ++ extra) = Ok (utf16_decode us).
@@ -294,6 +344,11 @@ Print Assumptions C12_parse_label_ok.
 Print Assumptions C12_sheet_name_ok.
 Print Assumptions C12_record_iter_collects.
 Print Assumptions C12_workbook_strings.
+Print Assumptions C12_codepage_irrelevant.
+Print Assumptions C12_nested_substream_skipped.
+Print Assumptions C12_nested_substream_nonvacuous.
+Print Assumptions C12_codepage_record_skipped.
+Print Assumptions C12_workbook_codepages_nonvacuous.
 Print Assumptions C12_formula_string_any_split.
 Print Assumptions C12_formula_string_layout_irrelevant.
 Print Assumptions C12_record_iter_collects_any.
